@@ -1,6 +1,7 @@
 """C11 - JSON wrapper guards, cJSON child-list shape, escape accounting and number printing structure (DESIGN.md section 4, C11)."""
 from sa import rules as RU
 from sa.cfg import dominators, ev_dominates, Typestate
+from sa.num import Num, Poly, Limit, entails
 from sa.extract import library_units
 from sa.rules import argstr, where
 from sa.shape import Interp, Heap, ShapeError
@@ -279,6 +280,79 @@ def print_wrap(R, P):
 from rules.cjson_depth import depth_balance, print_room
 
 
+def number_alphabet(R, P):
+    """NUMBER/alphabet: the number reader accepts every character the number printer can produce: print_number formats with
+    %g-style conversions, whose output is made of digits, '.', '-', '+' (in exponents such as 1e+22) and 'e' / 'E'"""
+    f = P.fn("parse_number")
+    if not R.require(f is not None, "parse_number not found"):
+        return
+    R.fn(f)
+    cases = {b.case for b in f.blocks.values() if b.case is not None}
+    want = set(range(48, 58)) | {ord(ch) for ch in "+-eE."}
+    missing = sorted(chr(x) for x in want - cases)
+    R.check(not missing, "NUMBER", "parse-accepts-the-printers-alphabet", "%s in parse_number()" % CJ, "digits, sign characters, exponent markers and the decimal point are all number characters",
+            "parse_number does not treat %s as part of a number: the printer writes large and small magnitudes in exponent form (1e+22), which the library's own parser then cuts at that character or rejects" % missing)
+
+
+def duplicate_links(R, P):
+    """TREE-SHAPE/duplicate: in cJSON_Duplicate's child loop the tail of the new child list advances on every iteration (both
+    the first-child and the later-child branch assign it the child just copied), so children are chained, not overwritten"""
+    from sa.cfg import edges
+    f = P.fn("cJSON_Duplicate")
+    if not R.require(f is not None, "cJSON_Duplicate not found"):
+        return
+    R.fn(f)
+    loops = Num(f, P, None).loops()
+    cand = [(h, body) for h, body in loops.items() if f.blocks[h].cond is not None and "child" in f.show(f.blocks[h].cond)]
+    if not R.require(len(cand) == 1, "cJSON_Duplicate: child loop not found"):
+        return
+    h, body = cand[0]
+    adv = set()
+    for b in body:
+        for el in f.blocks[b].elems:
+            if el["k"] == "bin" and el["op"] == "=" and f.show(f.d(el["a"][0])) == "next" and f.show(RU.uncast(f, el["a"][1])) == "newchild":
+                adv.add(b)
+    # every path from the loop body back to the header passes a block that advances the tail
+    start = [s for s, c_, p_ in edges(f, h) if s in body]
+    seen, work, leak = set(), list(start), False
+    while work:
+        x = work.pop()
+        if x in seen or x in adv:
+            continue
+        seen.add(x)
+        for s, c_, p_ in edges(f, x):
+            if s == h:
+                leak = True
+            elif s in body:
+                work.append(s)
+    R.check(bool(adv) and not leak, "TREE-SHAPE", "duplicate:tail-advances-every-iteration", "%s in cJSON_Duplicate()" % CJ, "every iteration of the child loop sets the tail to the child just copied",
+            "a path through cJSON_Duplicate's child loop links the copied child without advancing the tail: the next child overwrites the link, a container with three or more children duplicates to its first and last child only")
+
+
+def key_compare(R, P):
+    """GUARD/key-compare: case_insensitive_strcmp returns 0 only for the same pointer or after it has seen the terminator of
+    string1 at a position where both strings agree: a key is never equal to a longer key it is a prefix of"""
+    f = P.fn("case_insensitive_strcmp")
+    if not R.require(f is not None, "case_insensitive_strcmp not found"):
+        return
+    R.fn(f)
+    n, bad = 0, []
+    for r_ in f.returns():
+        v = RU.uncast(f, r_.node["a"][0]) if r_.node["a"] else None
+        if v is None or f.is_const(v) != 0:
+            continue
+        n += 1
+        gs = [(f.show(f.d(c_)).replace(" ", ""), p_) for c_, p_, b_ in RU.guards(f, r_)]
+        same_ptr = any("string1==string2" in t and p_ for t, p_ in gs)
+        ended = any(("*string1==0" in t.replace("'\\0'", "0") or "*string1=='\\0'" in t) and p_ for t, p_ in gs) or any(t.startswith("(*string1==") and p_ for t, p_ in gs)
+        other = [(t, p_) for t, p_ in gs if "string1==string2" not in t and "NULL" not in t and not t.startswith("(*string1==") and not t.startswith("(*string2==")]
+        agree = any(("==" in t and p_) or ("!=" in t and not p_) for t, p_ in other)  # the loop condition: the (lower-cased) characters agree
+        if not (same_ptr or (ended and agree)):
+            bad.append((r_.node["loc"][0], gs))
+    R.check(n >= 1 and not bad, "GUARD", "key-compare:equal-only-at-a-common-end", "%s in case_insensitive_strcmp()" % CJ, "`equal` is returned only for identical pointers or at a terminator both strings share",
+            "case_insensitive_strcmp can return 0 without both strings having ended at the same position (%s): a key compares equal to any longer key it is a prefix of (`id` / `identity`), so lookups, removals and the duplicate-key refusal hit the wrong member" % bad[:1])
+
+
 def surrogates(R, P):
     """ESCAPE-AGREE/surrogate: for every high surrogate in [D800, DBFF] followed by a low surrogate in [DC00, DFFF] the code
     point the parser computes is 0x10000 + (high - 0xD800) * 0x400 + (low - 0xDC00) (UTF-16), decided by NUM for all pairs
@@ -344,6 +418,9 @@ def analyse(ctx, replace=None, only=None):
     print_room(R, P)
     escapes(R, P)
     surrogates(R, P)
+    number_alphabet(R, P)
+    duplicate_links(R, P)
+    key_compare(R, P)
     numbers(R, P)
     print_wrap(R, P)
     C04.wrappers(R, P)
@@ -355,6 +432,9 @@ MUTANTS = [
     {"name": "array-index-off-by-one", "file": FILE, "expect": "GUARD", "old": "    if (index >= (size_t)cJSON_GetArraySize(cjson)) {\n        return aws_raise_error(AWS_ERROR_INVALID_INDEX);\n    }\n\n    cJSON_DeleteItemFromArray", "new": "    if (index > (size_t)cJSON_GetArraySize(cjson)) {\n        return aws_raise_error(AWS_ERROR_INVALID_INDEX);\n    }\n\n    cJSON_DeleteItemFromArray"},
     {"name": "tmp-key-leaked", "file": FILE, "expect": "TMPKEY", "old": "    bool result = aws_json_value_has_key_c_str(object, aws_string_c_str(tmp));\n\n    aws_string_destroy_secure(tmp);\n    return result;", "new": "    bool result = aws_json_value_has_key_c_str(object, aws_string_c_str(tmp));\n    if (!result) {\n        return result;\n    }\n    aws_string_destroy_secure(tmp);\n    return result;"},
     {"name": "object-closing-line-under-reserved", "file": CJ, "expect": "PRINT-WRAP", "old": "    output_pointer = ensure(output_buffer, output_buffer->format ? (output_buffer->depth + 1) : 2);", "new": "    output_pointer = ensure(output_buffer, 2);"},
+    {"name": "number-reader-without-plus", "file": CJ, "expect": "NUMBER", "old": "            case '9':\n            case '+':\n            case '-':", "new": "            case '9':\n            case '-':"},
+    {"name": "duplicate-tail-not-advanced", "file": CJ, "expect": "TREE-SHAPE", "old": "            next->next = newchild;\n            newchild->prev = next;\n            next = newchild;", "new": "            next->next = newchild;\n            newchild->prev = next;"},
+    {"name": "key-compare-stops-at-the-shorter-key", "file": CJ, "expect": "GUARD", "old": "    for(; tolower(*string1) == tolower(*string2); (void)string1++, string2++)\n    {\n        if (*string1 == '\\0')\n        {\n            return 0;\n        }\n    }\n\n    return tolower(*string1) - tolower(*string2);", "new": "    for(; (*string1 != '\\0') && (*string2 != '\\0'); (void)string1++, string2++)\n    {\n        if (tolower(*string1) != tolower(*string2))\n        {\n            return tolower(*string1) - tolower(*string2);\n        }\n    }\n\n    return 0;"},
     {"name": "surrogate-high-mask-narrowed", "file": CJ, "expect": "ESCAPE-AGREE", "old": "(((first_code & 0x3FF) << 10) | (second_code & 0x3FF))", "new": "(((first_code & 0xFF) << 10) | (second_code & 0x3FF))"},
     {"name": "empty-array-keeps-depth", "file": CJ, "expect": "TREE-SHAPE", "old": "        goto fail; /* expected end of array */\n    }\n\nsuccess:\n    input_buffer->depth--;\n", "new": "        goto fail; /* expected end of array */\n    }\n    input_buffer->depth--;\n\nsuccess:\n"},
     {"name": "detach-last-keeps-tail", "file": CJ, "expect": "TREE-SHAPE", "old": "    else if (item->next == NULL)\n    {\n        /* last element */\n        parent->child->prev = item->prev;\n    }", "new": ""},
